@@ -168,6 +168,9 @@ class _Power:
     power: float
     """The power to be set for the inverter."""
 
+    lower_bound: float = 0.0
+    """The lower (exclusion) bound of the power that can be set for the battery."""
+
 
 _InverterSet = frozenset[int]
 """A set of inverter IDs."""
@@ -543,6 +546,7 @@ class BatteryDistributionAlgorithm:
             distribution[inverter_set] = _Power(
                 upper_bound=incl_bound,
                 power=ratio_data.min_power,
+                lower_bound=excl_bounds[ratio_data.battery_id],
             )
 
         for inverter_ids, deficit in deficits.items():
@@ -624,6 +628,17 @@ class BatteryDistributionAlgorithm:
                         remaining_power -= new_power
                     else:
                         new_distribution[inverter_id] = 0.0
+
+                # If the inverters could not take enough power to get the batteries
+                # out of their exclusion bounds, don't use this set at all.
+                placed_power = power.power - remaining_power
+                if not is_close_to_zero(placed_power) and (
+                    placed_power < power.lower_bound
+                    and not math.isclose(placed_power, power.lower_bound)
+                ):
+                    for inverter_id in inverter_ids:
+                        new_distribution[inverter_id] = 0.0
+                    remaining_power = power.power
 
                 unplaced_power += remaining_power
 
